@@ -2,7 +2,11 @@
 
 package mem
 
-import "github.com/DrmagicE/gmqtt/persistence/queue"
+import (
+	"sync"
+
+	"github.com/DrmagicE/gmqtt/persistence/queue"
+)
 
 // This file is compiled only with `-tags verif`. It lets the verification harness in /verif read the
 // size of a session queue (ground truth for the queued / in-flight statistics); it adds nothing to the normal build.
@@ -19,4 +23,16 @@ func (q *Queue) VerifLens() (total, inflight int) {
 		}
 	}
 	return total, inflight
+}
+
+// VerifLocked reports whether the queue's lock is held at this moment (by anyone). The harness's recording Notifier
+// calls it from inside the notifier callbacks: a report about a change of the queue must be made while the lock that
+// protected the change is still held, otherwise another goroutine's report can overtake it.
+func (q *Queue) VerifLocked() bool {
+	m := q.cond.L.(*sync.Mutex)
+	if m.TryLock() {
+		m.Unlock()
+		return false
+	}
+	return true
 }
